@@ -3,6 +3,7 @@
 package main
 
 import (
+	"io"
 	"net/http"
 	"net/url"
 	"os"
@@ -12,6 +13,44 @@ import (
 
 	"github.com/WICG/webpackage/go/internal/vh"
 )
+
+func c20Hex(c byte) (byte, bool) {
+	switch {
+	case '0' <= c && c <= '9':
+		return c - '0', true
+	case 'a' <= c && c <= 'f':
+		return c - 'a' + 10, true
+	case 'A' <= c && c <= 'F':
+		return c - 'A' + 10, true
+	}
+	return 0, false
+}
+
+// c20Decode is an independent RFC 3986 percent-decoder for a path; ok = false on a malformed escape or a raw
+// '?' / '#' (which would end the path).
+func c20Decode(s string) (string, bool) {
+	var out []byte
+	for i := 0; i < len(s); i++ {
+		switch s[i] {
+		case '?', '#':
+			return "", false
+		case '%':
+			if i+2 >= len(s) {
+				return "", false
+			}
+			h, ok1 := c20Hex(s[i+1])
+			l, ok2 := c20Hex(s[i+2])
+			if !ok1 || !ok2 {
+				return "", false
+			}
+			out = append(out, h<<4|l)
+			i += 2
+		default:
+			out = append(out, s[i])
+		}
+	}
+	return string(out), true
+}
 
 // ---- environment of gen-bundle's fromDir.  Natively the harness materialises a REAL temporary directory and the
 // real filepath.Walk / os.Stat / http.ServeFile run; symbolically the VHStub_* functions below stand for them
@@ -84,6 +123,18 @@ func VHStub_http_ServeFile(w http.ResponseWriter, r *http.Request, name string) 
 	w.WriteHeader(404)
 }
 
+// os.IsNotExist on the errors VHStub_os_Stat can return.
+func VHStub_os_IsNotExist(err error) bool { return err != nil && err == os.ErrNotExist }
+
+// http.NewRequest, documented contract: the URL is parsed with net/url (the real parser runs on the symbolic text).
+func VHStub_http_NewRequest(method, rawurl string, body io.Reader) (*http.Request, error) {
+	u, err := url.Parse(rawurl)
+	if err != nil {
+		return nil, err
+	}
+	return &http.Request{Method: method, URL: u, Header: http.Header{}, Host: u.Host}, nil
+}
+
 func VHStub_os_MkdirTemp(dir, pattern string) (string, error) { return "/vhroot", nil }
 func VHStub_os_MkdirAll(path string, perm os.FileMode) error  { return nil }
 func VHStub_os_WriteFile(name string, data []byte, perm os.FileMode) error {
@@ -92,7 +143,7 @@ func VHStub_os_WriteFile(name string, data []byte, perm os.FileMode) error {
 func VHStub_os_RemoveAll(path string) error { return nil }
 
 // VH_C20_FromDir: gen-bundle's fromDir itself - the directory walk, the "directory with index.html" rule and the
-// URL mapping together - on a directory tree holding one entry with a SYMBOLIC name of 1..2 bytes (any byte except
+// URL mapping together - on a directory tree holding one entry with a SYMBOLIC name of 1 byte (thorough: 1..2 bytes) (any byte except
 // '/' and NUL; not "." / ".."): (0) a file with that name directly in the base directory, (1) a file with that name
 // inside "sub dir#1/", (2) a DIRECTORY with that name containing index.html.  Base URL https://example.com/base/.
 // fromDir succeeds; there is exactly one exchange per regular file, its URL is the base URL followed by a
@@ -103,7 +154,7 @@ func VHStub_os_RemoveAll(path string) error { return nil }
 // run and the real functions on a real temporary directory in the native replay.
 func VH_C20_FromDir() {
 	vh.MustReach("file", "indexdir")
-	n := 1 + vh.Choose(2)
+	n := 1 + vh.Choose(1+vh.Tier()) // quick: one-byte names (all 254), thorough: also two-byte names
 	name := vh.String("name", n)
 	for i := 0; i < n; i++ {
 		vh.Assume(name[i] != '/' && name[i] != 0)
